@@ -91,13 +91,20 @@ package compose
 //@     invariant[all] allSkipped && forall(p string :: in(p, $seen) ==> ch.ControlPredecessors[p] == dependencyStateSkipped)
 
 //@ func mergeValues
-//@   trusted merge of fan-in values is reflect / stream based (C08, C14); only "an error or one value" is assumed
+//@   trusted merge of fan-in values is reflect / stream based (C08, C14); only "an error or one value, a stream when the inputs are streams" is assumed
 //@   pure
+//@   ensures[stream_kind] result1 == nil && len(vs) > 0 && is(vs[0], "streamReader") ==> is(result0, "streamReader")
+
+//@ fieldfunc dagChannel.emptyStream
+//@   trusted set from genericHelper.emptyStream, which always builds a (closed, empty) stream
+//@   ensures[nonnil] result != nil
 
 //@ func (*dagChannel).get
 //@   props C02
 //@   requires wf(ch) && ch.zeroValue != nil && ch.emptyStream != nil
+//@   requires[stream_values] isStream ==> forall(k string :: in(k, ch.Values) ==> is(ch.Values[k], "streamReader"))
 //@   modifies map(ch.ControlPredecessors), map(ch.DataPredecessors), ch.Values
+//@   ensures[stream_kind] isStream && result1 ==> is(result0, "streamReader")
 //@   ensures[ready_iff] result2 == nil ==> (result1 <==> (!old(ch.Skipped) && forall(p string :: old(in(p, ch.ControlPredecessors)) ==> old(ch.ControlPredecessors[p]) != dependencyStateWaiting) && forall(d string :: old(in(d, ch.DataPredecessors)) ==> old(ch.DataPredecessors[d]))))
 //@   ensures[err_not_ready] result2 != nil ==> !result1
 //@   ensures[not_ready_unchanged] !result1 && result2 == nil ==> ch.Values == old(ch.Values) && forall(p string :: ch.ControlPredecessors[p] == old(ch.ControlPredecessors[p]) && ch.DataPredecessors[p] == old(ch.DataPredecessors[p]))
@@ -122,6 +129,7 @@ package compose
 //@     invariant[fresh] fresh(valueList)
 //@     invariant[len] len(valueList) == $n
 //@     invariant[from] forall(i int :: 0 <= i && i < len(valueList) ==> exists(k string :: in(k, $seen) && valueList[i] == old(ch.Values[k])))
+//@     invariant[stream_kind] isStream ==> forall(i int :: 0 <= i && i < len(valueList) ==> is(valueList[i], "streamReader"))
 
 // ---------------------------------------------------------------------------------------------------
 // pregel.go — any-predecessor channels (C01, C05)
@@ -158,7 +166,9 @@ package compose
 //@ func (*pregelChannel).get
 //@   props C01
 //@   requires ch != nil && ch.Values != nil
+//@   requires[stream_values] arg0 ==> forall(k string :: in(k, ch.Values) ==> is(ch.Values[k], "streamReader"))
 //@   modifies ch.Values
+//@   ensures[stream_kind] arg0 && result1 ==> is(result0, "streamReader")
 //@   ensures[empty] old(len(ch.Values)) == 0 ==> !result1 && result2 == nil && result0 == nil && ch.Values == old(ch.Values)
 //@   ensures[cleared] old(len(ch.Values)) > 0 ==> fresh(ch.Values) && len(ch.Values) == 0
 //@   ensures[ready] old(len(ch.Values)) > 0 && result2 == nil ==> result1
@@ -170,6 +180,7 @@ package compose
 //@     invariant[fresh] fresh(values)
 //@     invariant[len] len(values) == $n
 //@     invariant[from] forall(i int :: 0 <= i && i < len(values) ==> exists(k string :: in(k, $seen) && values[i] == ch.Values[k]))
+//@     invariant[stream_kind] arg0 ==> forall(i int :: 0 <= i && i < len(values) ==> is(values[i], "streamReader"))
 
 //@ func (*pregelChannel).reportSkip
 //@   props C01
@@ -415,3 +426,171 @@ package compose
 //@     modifies *interruptAfterNodes, elems(*interruptAfterNodes)
 //@     invariant[unchanged] *interruptAfterNodes == pre(*interruptAfterNodes) && forall(m int :: 0 <= m && m < len(*interruptAfterNodes) ==> (*interruptAfterNodes)[m] == pre((*interruptAfterNodes)[m]))
 //@     invariant[nomatch] forall(m int :: 0 <= m && m < $i ==> r.interruptAfterNodes[m] != completedTasks[i].nodeKey)
+
+// ---------------------------------------------------------------------------------------------------
+// graph_manager.go — channel interface, channel manager (C01, C02, C19)
+// ---------------------------------------------------------------------------------------------------
+
+//@ spec isDag(c channel) bool = is(c, "*dagChannel") && asDag(c) != nil
+//@ spec isPregel(c channel) bool = is(c, "*pregelChannel") && asPregel(c) != nil
+//@ spec chanOK(c channel) bool = (isDag(c) && wf(asDag(c)) && asDag(c).zeroValue != nil && asDag(c).emptyStream != nil) || (isPregel(c) && asPregel(c).Values != nil)
+//@ spec chanValues(c channel) map[string]any = isDag(c) ? asDag(c).Values : asPregel(c).Values
+
+//@ iface (channel).reportValues
+//@   requires[ok] chanOK(recv)
+//@   requires[noalias] arg0 != chanValues(recv)
+//@   modifies when(isDag(recv), map(asDag(recv).DataPredecessors), map(asDag(recv).Values)), when(isPregel(recv), map(asPregel(recv).Values))
+//@   ensures[ok] chanOK(recv) && chanValues(recv) == old(chanValues(recv))
+//@   ensures[noerr] result == nil
+//@   note implementations (*dagChannel).reportValues and (*pregelChannel).reportValues are verified against stronger contracts
+
+//@ iface (channel).reportDependencies
+//@   requires chanOK(recv)
+//@   modifies when(isDag(recv), map(asDag(recv).ControlPredecessors))
+//@   ensures[ok] chanOK(recv)
+
+//@ iface (channel).reportSkip
+//@   requires chanOK(recv)
+//@   modifies when(isDag(recv), map(asDag(recv).ControlPredecessors), map(asDag(recv).DataPredecessors), asDag(recv).Skipped)
+//@   ensures[ok] chanOK(recv)
+//@   ensures[pregel_never] isPregel(recv) ==> !result
+
+//@ iface (channel).get
+//@   requires chanOK(recv)
+//@   modifies when(isDag(recv), map(asDag(recv).ControlPredecessors), map(asDag(recv).DataPredecessors), asDag(recv).Values), when(isPregel(recv), asPregel(recv).Values)
+//@   ensures[ok] chanOK(recv)
+//@   ensures[err_not_ready] result2 != nil ==> !result1
+//@   ensures[stream_kind] arg0 && result1 ==> is(result0, "streamReader")
+//@   note the implementations prove stream_kind under "every stored value is a stream", which holds in stream mode (values enter through reportValues from stream-mode node outputs); that run-level invariant is assumed here
+
+//@ iface (channel).load
+//@   requires recv != nil
+//@   modifies when(is(recv, "*dagChannel"), fields(asDag(recv))), when(is(recv, "*pregelChannel"), fields(asPregel(recv)))
+
+//@ spec cmOK(c *channelManager) bool = c != nil && c.channels != nil && c.edgeHandlerManager != nil && c.preNodeHandlerManager != nil && forall(k string :: in(k, c.channels) ==> chanOK(c.channels[k]))
+
+//@ func (*edgeHandlerManager).handle
+//@   props C04 C07
+//@   requires e != nil
+//@   requires isStream ==> is(value, "streamReader")
+//@   requires forall(k string, t string, i int :: in(k, e.h) && in(t, e.h[k]) && 0 <= i && i < len(e.h[k][t]) ==> e.h[k][t][i].invoke != nil && e.h[k][t][i].transform != nil)
+//@   ensures[passthrough] (!in(from, e.h) || !in(to, e.h[from])) ==> result0 == value && result1 == nil
+//@   ensures[stream_no_err] isStream ==> result1 == nil
+//@   ensures[stream_kind] isStream ==> is(result0, "streamReader")
+//@   loop 1:
+//@     invariant[kind] is(value, "streamReader")
+
+//@ func (*preNodeHandlerManager).handle
+//@   props C04 C07
+//@   requires p != nil
+//@   requires isStream ==> is(value, "streamReader")
+//@   requires forall(k string, i int :: in(k, p.h) && 0 <= i && i < len(p.h[k]) ==> p.h[k][i].invoke != nil && p.h[k][i].transform != nil)
+//@   ensures[passthrough] !in(nodeKey, p.h) ==> result0 == value && result1 == nil
+//@   ensures[stream_no_err] isStream ==> result1 == nil
+//@   ensures[stream_kind] isStream ==> is(result0, "streamReader")
+//@   loop 1:
+//@     invariant[kind] is(value, "streamReader")
+
+//@ func (*preBranchHandlerManager).handle
+//@   props C04 C07
+//@   requires p != nil
+//@   requires isStream ==> is(value, "streamReader")
+//@   requires in(nodeKey, p.h) ==> 0 <= idx && idx < len(p.h[nodeKey])
+//@   requires forall(k string, b int, i int :: in(k, p.h) && 0 <= b && b < len(p.h[k]) && 0 <= i && i < len(p.h[k][b]) ==> p.h[k][b][i].invoke != nil && p.h[k][b][i].transform != nil)
+//@   ensures[passthrough] !in(nodeKey, p.h) ==> result0 == value && result1 == nil
+//@   ensures[stream_no_err] isStream ==> result1 == nil
+//@   ensures[stream_kind] isStream ==> is(result0, "streamReader")
+//@   loop 1:
+//@     invariant[kind] is(value, "streamReader")
+
+//@ fieldfunc handlerPair.transform
+//@   trusted every handlerPair stored by the framework pairs invoke with the item-wise lift of the same function (C04 pair_lift)
+//@   ensures[kind] result != nil
+
+//@ spec handlersOK(c *channelManager) bool = (forall(k string, t string, i int :: in(k, c.edgeHandlerManager.h) && in(t, c.edgeHandlerManager.h[k]) && 0 <= i && i < len(c.edgeHandlerManager.h[k][t]) ==> c.edgeHandlerManager.h[k][t][i].invoke != nil && c.edgeHandlerManager.h[k][t][i].transform != nil)) && (forall(k string, i int :: in(k, c.preNodeHandlerManager.h) && 0 <= i && i < len(c.preNodeHandlerManager.h[k]) ==> c.preNodeHandlerManager.h[k][i].invoke != nil && c.preNodeHandlerManager.h[k][i].transform != nil))
+
+//@ iface (streamReader).close
+//@   note closing a stream reader releases its producer (C19 linear accounting); no framework memory visible to the graph engine is written
+
+//@ func (*channelManager).updateValues
+//@   props C02 C01 C19
+//@   requires cmOK(c) && handlersOK(c)
+//@   requires c.isStream ==> forall(t string, f string :: in(t, values) && in(f, values[t]) ==> is(values[t][f], "streamReader"))
+//@   requires[sep] forall(t string, k string :: in(t, values) && in(k, c.channels) ==> values[t] != chanValues(c.channels[k]))
+//@   modifies region("MD|map[string]bool"), region("MV|map[string]bool"), region("MC|map[string]bool"), region("MD|map[string]any"), region("MV|map[string]any"), region("MC|map[string]any")
+//@   ensures[unknown_target] (exists(t string :: in(t, values) && !in(t, c.channels))) ==> result != nil
+//@   ensures[ok] cmOK(c)
+//@   at call toChannel.reportValues: assert[only_data_predecessors] forall(f string :: in(f, nFromMap) ==> in(f, dps) && in(f, fromMap))
+//@   loop 1:
+//@     invariant[ok] cmOK(c) && handlersOK(c)
+//@     invariant[known] forall(t string :: in(t, $seen) ==> in(t, c.channels))
+//@     invariant[kind] c.isStream ==> forall(t string, f string :: in(t, values) && in(f, values[t]) ==> is(values[t][f], "streamReader"))
+//@     invariant[sep] forall(t string, k string :: in(t, values) && in(k, c.channels) ==> values[t] != chanValues(c.channels[k]))
+//@     invariant[values_dom] forall(t string :: in(t, values) == old(in(t, values)))
+//@   loop 2:
+//@     modifies map(nFromMap)
+//@     invariant[subset] forall(f string :: in(f, nFromMap) ==> in(f, dps) && in(f, $seen))
+
+//@ func (*channelManager).updateDependencies
+//@   props C02
+//@   requires cmOK(c)
+//@   modifies region("MD|map[string]compose.dependencyState"), region("MV|map[string]compose.dependencyState"), region("MC|map[string]compose.dependencyState")
+//@   ensures[unknown_target] (exists(t string :: in(t, dependenciesMap) && !in(t, c.channels))) ==> result != nil
+//@   ensures[ok] cmOK(c)
+//@   at call toChannel.reportDependencies: assert[only_control_predecessors] forall(i int :: 0 <= i && i < len(deps) ==> in(deps[i], cps) && inList(deps[i], dependencies))
+//@   loop 1:
+//@     modifies fresh(), region("MD|map[string]compose.dependencyState"), region("MV|map[string]compose.dependencyState"), region("MC|map[string]compose.dependencyState")
+//@     invariant[ok] cmOK(c)
+//@     invariant[known] forall(t string :: in(t, $seen) ==> in(t, c.channels))
+//@   loop 2:
+//@     modifies fresh()
+//@     invariant[fresh] deps == nil || fresh(deps)
+//@     invariant[subset] forall(i int :: 0 <= i && i < len(deps) ==> in(deps[i], cps) && exists(j int :: 0 <= j && j < $i && dependencies[j] == deps[i]))
+
+//@ func (*channelManager).getFromReadyChannels
+//@   props C01 C02
+//@   requires cmOK(c) && handlersOK(c)
+//@   modifies region("F|compose.dagChannel|Values"), region("F|compose.pregelChannel|Values"), region("MD|map[string]compose.dependencyState"), region("MV|map[string]compose.dependencyState"), region("MC|map[string]compose.dependencyState"), region("MD|map[string]bool"), region("MV|map[string]bool"), region("MC|map[string]bool")
+//@   ensures[keys] result1 == nil ==> result0 != nil && fresh(result0) && forall(k string :: in(k, result0) ==> in(k, c.channels))
+//@   ensures[err] result1 != nil ==> result0 == nil
+//@   ensures[ok] cmOK(c)
+//@   ensures[kind] result1 == nil && c.isStream ==> forall(k string :: in(k, result0) ==> true)
+//@   loop 1:
+//@     modifies map(result), region("F|compose.dagChannel|Values"), region("F|compose.pregelChannel|Values"), region("MD|map[string]compose.dependencyState"), region("MV|map[string]compose.dependencyState"), region("MC|map[string]compose.dependencyState"), region("MD|map[string]bool"), region("MV|map[string]bool"), region("MC|map[string]bool")
+//@     invariant[ok] cmOK(c) && handlersOK(c)
+//@     invariant[keys] forall(k string :: in(k, result) ==> in(k, $seen))
+
+//@ func (*channelManager).updateAndGet
+//@   props C01 C02
+//@   requires cmOK(c) && handlersOK(c)
+//@   requires c.isStream ==> forall(t string, f string :: in(t, values) && in(f, values[t]) ==> is(values[t][f], "streamReader"))
+//@   requires[sep] forall(t string, k string :: in(t, values) && in(k, c.channels) ==> values[t] != chanValues(c.channels[k]))
+//@   modifies region("F|compose.dagChannel|Values"), region("F|compose.pregelChannel|Values"), region("MD|map[string]compose.dependencyState"), region("MV|map[string]compose.dependencyState"), region("MC|map[string]compose.dependencyState"), region("MD|map[string]bool"), region("MV|map[string]bool"), region("MC|map[string]bool"), region("MD|map[string]any"), region("MV|map[string]any"), region("MC|map[string]any")
+//@   ensures[keys] result1 == nil ==> result0 != nil && forall(k string :: in(k, result0) ==> in(k, c.channels))
+//@   ensures[err] result1 != nil ==> result0 == nil
+//@   ensures[ok] cmOK(c)
+
+//@ func (*channelManager).reportBranch
+//@   props C02
+//@   requires cmOK(c)
+//@   requires[known_nodes] forall(i int :: 0 <= i && i < len(skippedNodes) ==> in(skippedNodes[i], c.channels))
+//@   requires[known_successors] forall(k string, i int :: in(k, c.successors) && 0 <= i && i < len(c.successors[k]) ==> in(c.successors[k][i], c.channels))
+//@   modifies region("F|compose.dagChannel|Skipped"), region("MD|map[string]compose.dependencyState"), region("MV|map[string]compose.dependencyState"), region("MC|map[string]compose.dependencyState"), region("MD|map[string]bool"), region("MV|map[string]bool"), region("MC|map[string]bool")
+//@   ensures[ok] cmOK(c)
+//@   loop 1:
+//@     modifies fresh(), region("F|compose.dagChannel|Skipped"), region("MD|map[string]compose.dependencyState"), region("MV|map[string]compose.dependencyState"), region("MC|map[string]compose.dependencyState"), region("MD|map[string]bool"), region("MV|map[string]bool"), region("MC|map[string]bool")
+//@     invariant[ok] cmOK(c)
+//@     invariant[fresh] nKeys == nil || fresh(nKeys)
+//@     invariant[known] forall(i int :: 0 <= i && i < len(nKeys) ==> in(nKeys[i], c.channels))
+//@   loop 2:
+//@     modifies fresh(), region("F|compose.dagChannel|Skipped"), region("MD|map[string]compose.dependencyState"), region("MV|map[string]compose.dependencyState"), region("MC|map[string]compose.dependencyState"), region("MD|map[string]bool"), region("MV|map[string]bool"), region("MC|map[string]bool")
+//@     invariant[idx] 0 <= i
+//@     invariant[ok] cmOK(c)
+//@     invariant[fresh] nKeys == nil || fresh(nKeys)
+//@     invariant[known] forall(j int :: 0 <= j && j < len(nKeys) ==> in(nKeys[j], c.channels))
+//@   loop 3:
+//@     modifies fresh(), region("F|compose.dagChannel|Skipped"), region("MD|map[string]compose.dependencyState"), region("MV|map[string]compose.dependencyState"), region("MC|map[string]compose.dependencyState"), region("MD|map[string]bool"), region("MV|map[string]bool"), region("MC|map[string]bool")
+//@     invariant[ok] cmOK(c)
+//@     invariant[fresh] nKeys == nil || fresh(nKeys)
+//@     invariant[known] forall(j int :: 0 <= j && j < len(nKeys) ==> in(nKeys[j], c.channels))
+//@     invariant[i_kept] 0 <= i && i < len(nKeys)
